@@ -454,11 +454,12 @@ Outcomes(P, S, cmd) ==
     [] OTHER -> Unspec(S)
 
 \* system calls as commands: <<"getrlimit", r>>, <<"setrlimit", r, soft, hard>>,
-\* <<"sys_umask", octal text>>; the value is rendered as text
+\* <<"sys_umask", octal text>>, <<"sys_getumask">>; the value is rendered as text
 Calls(P, S, cmd) ==
   CASE cmd[1] = "getrlimit" -> SysGetrlimit(P, S, cmd[2])
     [] cmd[1] = "setrlimit" -> SysSetrlimit(P, S, cmd[2], cmd[3], cmd[4])
     [] cmd[1] = "sys_umask" -> SysUmask(S, OctalVal(Chars(cmd[2])))
+    [] cmd[1] = "sys_getumask" -> {CallRes("", S.umask, S)}      \* umask(0), then umask(the value returned)
 (***************************************************************************)
 (* RENDERING AND MATCHING of standard output.  Canon gives one text the    *)
 (* specification certainly allows ("?" where no single text is            *)
@@ -474,7 +475,7 @@ CallText(cmd, res) ==
   IF res.err # "" THEN res.err
   ELSE CASE cmd[1] = "getrlimit" -> res.val[1] \o " " \o res.val[2]
          [] cmd[1] = "setrlimit" -> "ok"
-         [] cmd[1] = "sys_umask" -> OctalText(res.val)
+         [] cmd[1] \in {"sys_umask", "sys_getumask"} -> OctalText(res.val)
 
 Canon(P, fmt) ==
   CASE fmt.k = "none" -> ""
